@@ -437,8 +437,9 @@ func (ega *EnhancedGroupAggregator) AddPostAggregationExpression(outputField, or
 			}
 		}
 
-		// Check if input field is an expression (contains function calls)
-		isInputExpression := strings.Contains(field.InputField, "(") && strings.Contains(field.InputField, ")")
+		// Check if input field is an expression (contains function calls or arithmetic)
+		isInputExpression := (strings.Contains(field.InputField, "(") && strings.Contains(field.InputField, ")")) ||
+			hasArithmeticOperator(field.InputField)
 
 		// If input expression itself contains aggregation calls, skip creating an aggregator for this field
 		// Use dynamic function registry instead of hardcoded list
@@ -629,6 +630,31 @@ func (ega *EnhancedGroupAggregator) createParameterizedAggregator(field Aggregat
 
 	// Wrap with WindowFunctionWrapper for compatibility
 	return &WindowFunctionWrapper{aggFunc: aggFunc}
+}
+
+// hasArithmeticOperator reports whether an aggregate's input is an arithmetic expression
+// such as "t*2" or "a+b" rather than a column reference. A lone "*" is the argument of
+// count(*), and text inside [...] belongs to a field path (e.g. items[-1]).
+func hasArithmeticOperator(input string) bool {
+	if strings.TrimSpace(input) == "*" {
+		return false
+	}
+	depth := 0
+	for i := 0; i < len(input); i++ {
+		switch input[i] {
+		case '[':
+			depth++
+		case ']':
+			if depth > 0 {
+				depth--
+			}
+		case '+', '-', '*', '/', '%':
+			if depth == 0 {
+				return true
+			}
+		}
+	}
+	return false
 }
 
 // hasMultipleTopLevelArgs returns true if the function call has more than one top-level argument
